@@ -827,6 +827,8 @@ def execute_additivity(sc, sim):
                                           "enc": "utf-8"}), sc["damageB"], sc["fmt"])
         if ca != cb:
             st.probe("export_v3_and_v4_in_one_file")
+        if ra and not ra.endswith(b"\n"):
+            ra += b"\n"      # files are concatenated line-wise: A's last line must be complete
         oa, da = run_one(sc, sim, A, "A", st, raw=ra)
         ob, db = run_one(sc, sim, B, "B", st, raw=rb)
         oab, dab = run_one(sc, sim, AB, "AB", st, raw=ra + rb)
